@@ -7,12 +7,14 @@ import re
 import sys
 
 sys.path.insert(0, '/verif/lib')
+sys.path.insert(0, '/verif/checks')
 import vlib
+import execx
 import progs
 from vlib import Inconclusive
 
 META = {
-    'technique': 'TLA+ Eval.tla with two evaluations sharing tasks (exhaustive) + EvalGen two-evaluation schedules replayed gated and free-running into the real Eval, judged by EvalMon.tla; concurrent Run/scan/discard scenarios in real sessions judged by ProgMon.tla; race detector on the same drivers in the thorough tier; worker side of a shared task: Worker.tla (concurrent Worker.Run requests, cancellation, failure, Discard) checked exhaustively and recorded histories of the real worker.Run/Discard judged by WorkerMon.tla (OneExecution, NoRunDuringDiscard, ReplyOk, Returns)',
+    'technique': 'TLA+ Eval.tla with two evaluations sharing tasks (exhaustive) + EvalGen two-evaluation schedules replayed gated and free-running into the real Eval, judged by EvalMon.tla; concurrent Run/scan/discard scenarios in real sessions judged by ProgMon.tla; race detector on the same drivers in the thorough tier; worker side of a shared task: Worker.tla (concurrent Worker.Run requests, cancellation, failure, Discard) checked exhaustively and recorded histories of the real worker.Run/Discard judged by WorkerMon.tla (OneExecution, NoRunDuringDiscard, ReplyOk, Returns); executor level: two invocations consuming one result concurrently with a racing Discard in real bigmachine sessions, judged by ExecMon.tla and validated against the design model Exec.tla by ExecTrace.tla',
     'level_text': 'model_checking: all interleavings of two evaluations sharing tasks are explored on small graphs (single runner, awaited by the others, success only when done, never stuck); TLC-generated two-evaluation schedules are replayed into exec.Eval and the traces judged by the monitors; sets of 2-4 programs sharing result arguments are started concurrently in real sessions on both executors under varied GOMAXPROCS and each run is judged against the value it would have alone',
     'level_note': '"no data races" is a Go-memory-model clause that TLA+ cannot decide: the Go race detector run over the same concurrent drivers (thorough tier) is auxiliary evidence for that clause only',
 }
@@ -182,8 +184,11 @@ def run(tier, replay=None):
     spec = importlib.util.spec_from_file_location('c12', vlib.V + '/checks/c12.py')
     c12 = importlib.util.module_from_spec(spec)
     spec.loader.exec_module(c12)
-    with vlib.WorkCopy('c19', harness=['prog', 'c03']) as w:
+    with vlib.WorkCopy('c19', harness=['prog', 'c03', 'c12x']) as w:
         wdir = w.root + '/tlc'
+        if replay and 'xcase' in json.load(open(os.path.join(replay, 'replay.json')))['payload']:
+            execx.run(chk, w, tier, replay_case=json.load(open(os.path.join(replay, 'replay.json')))['payload']['xcase'])
+            return chk.finish()
         if replay and 'wcase' in json.load(open(os.path.join(replay, 'replay.json')))['payload']:
             worker_stage(chk, w, wdir, tier, replay)
             return chk.finish()
@@ -279,6 +284,9 @@ def run(tier, replay=None):
         # failures and Discard, on a real worker (design model Worker.tla, exhaustive; monitor WorkerMon.tla)
         if not replay:
             worker_stage(chk, w, wdir, tier, replay)
+            # (5) executor level: two invocations consuming one result at the same time (they share its tasks), with a
+            # Discard racing with them; ExecMon judges the outcomes, ExecTrace validates the events against Exec.tla
+            execx.run(chk, w, tier, kinds=('conc',), mc_only=('ExecMC_fixed.cfg',))
         for s in scs:
             chk.case({'steps': s['steps'], 'exec': s['exec']}, nontrivial=True)
         for s in scheds:
